@@ -1,15 +1,13 @@
-\* quick-tier universe, unmutated mechanism (MC_C19_thorough.cfg: every documented value of
-\* every flag, every file-name extension, --debug / --inspect; MC_C19_mut_*.cfg: spec mutants on
-\* which TLC must report a law violated).  Extension "any": the harness draws one per run.
+\* spec mutant 'extformat' of the GlomCli mechanism: TLC must report a law violated
 CONSTANTS
-  Mutant = "none"
+  Mutant = "extformat"
   SFmts = {"default", "json", "python-full", "bad"}
   TFmts = {"default", "python", "yaml", "toml", "bad"}
   Indents = {"default", "0"}
   TxtIds = {"qstr1", "qstr2", "blit", "bboth", "bare", "baresx", "bbad", "bname", "texpo", "texpb", "advb", "advq", "advo"}
   Argvs = {"ok", "badindent", "toomany", "unknownflag"}
-  SExts = {"any", ".py"}
-  TExts = {"any"}
+  SExts = {".txt", ".py", ".json"}
+  TExts = {".txt", ".yml"}
   Dbgs = {"off", "debug"}
 INIT Init
 NEXT Next
